@@ -191,6 +191,21 @@ fn check_text(c: &TextCase, reps: usize, obs: &mut Obs) -> Verdict {
             Err(p) => return Verdict::Fail(format!("text diff: {}", p)),
         }
     }
+    // two views of ONE buffer (same start, same number of tokens, the last token cut short) give the
+    // ops that separate copies of the two texts give
+    if o.len() >= 2 {
+        let mut cut = o.len() - 1;
+        while !o.is_char_boundary(cut) {
+            cut -= 1;
+        }
+        let (va, vb) = (&o[..cut], o);
+        let (ca, cb) = (va.to_string(), vb.to_string());
+        match (guard(|| diff_str(&cfg, tok, va, vb).ops().to_vec()), guard(|| diff_str(&cfg, tok, &ca, &cb).ops().to_vec())) {
+            (Ok(a), Ok(b)) if a == b => {}
+            (Ok(a), Ok(b)) => return Verdict::Fail(format!("{} {}: a text and the view of it that is one character shorter (same buffer) give {:?}, separate copies give {:?}", alg_name(c.alg), TOKENIZERS[tok as usize], a, b)),
+            (Err(p), _) | (_, Err(p)) => return Verdict::Fail(format!("text diff over two views of one buffer: {}", p)),
+        }
+    }
     // fresh threads (fresh hasher keys), str and [u8]
     {
         let outs: Vec<Option<(Vec<DiffOp>, Vec<DiffOp>)>> = std::thread::scope(|s| {
